@@ -15,4 +15,23 @@ bad = [(c, a, b) for c, a, b in zip(cases, ir, mr) if corr.diff(a, b)]
 if bad or any(r is None for r in mr):
     print('SELFTEST FAILED', bad)
     sys.exit(1)
+# the frozen Lean specification mirrors spec/tables.json (both are hand-frozen documents; neither is regenerated from the code)
+import json, re
+from pathlib import Path
+V = Path(__file__).resolve().parents[1]
+T = json.loads((V / 'spec' / 'tables.json').read_text())
+L = (V / 'lean' / 'Duckling' / 'Spec' / 'Ducky.lean').read_text()
+
+
+def lean_list(name):
+    m = re.search(r'def ' + name + r' : List String :=\s*\[(.*?)\]', L, re.S)
+    return [x.strip().strip('"') for x in m.group(1).replace('\n', ' ').split(',')]
+
+
+mirror = [(lean_list('noArgKeys'), T['noarg_keys'] + T['enter']), (lean_list('delayNames'), T['delay'] + T['default_delay']),
+          (lean_list('oneCharOrBare'), T['flipper']['one_char_or_bare']), (lean_list('dsOnly'), T['duckling_only'])]
+for a, b in mirror:
+    if sorted(a) != sorted(b):
+        print('SELFTEST FAILED: Spec/Ducky.lean and spec/tables.json disagree:', sorted(set(a) ^ set(b)))
+        sys.exit(1)
 print('selftest ok: model and implementation agree on', len(cases), 'fixed programs')
